@@ -53,6 +53,8 @@ type Group struct {
 	Entries []Entry
 	// Extra packages to load (patterns), beyond PkgPath
 	Extra []string
+	// Nop: functions of the code under test given empty bodies (logging)
+	Nop []string
 }
 
 type Spec struct {
@@ -522,6 +524,11 @@ func Run(spec *Spec, tier string, seed int64) int {
 		if err != nil {
 			c.Fail("load %s: %v", g.PkgPath, err)
 			continue
+		}
+		prog.Nops = map[string]bool{}
+		for _, n := range g.Nop {
+			prog.Nops[n] = true
+			c.Stubs = append(c.Stubs, "nop:"+n)
 		}
 		c.LoadS += prog.LoadSeconds
 		for k := range prog.Stubs {
